@@ -111,6 +111,8 @@ cnb = z3.Function('cnb', Int, Int, ISeq)            # simple graph g: the closed
 nbj = z3.Function('nbj', Int, Int, Int)             # position of v's closed neighbourhood in the duplicate-free list of neighbourhoods
 nbv = z3.Function('nbv', Int, Int, Int)             # a vertex whose closed neighbourhood is the j-th listed one
 isorted = z3.Function('isorted', ISeq, ISeq)        # sorted(X): a function of the list (no schema needed where only its identity matters)
+sqr = z3.Function('sqr', Int, Int)                    # t**2, kept symbolic (only linear facts about squares are used)
+isqf = z3.Function('isqf', Int, Int)                  # int(math.sqrt(w)) as the float library computes it (uninterpreted: floats are not modelled)
 degsum = z3.Function('degsum', Int, Int, Int)             # bipartite graph g: number of edges at the left vertices 1..u (sum of their degrees)         # combinations group (pairs): the variable of the pair {u, v}, u < v
 mrow = z3.Function('mrow', Int, Int, Int, ISeq)        # (group, u, m): the variables p[u,1..m] of a unary mapping, in order
 mcol = z3.Function('mcol', Int, Int, Int, ISeq)        # (group, v, n): the variables p[1..n,v], in order
@@ -206,7 +208,7 @@ def cmp_op(op, lhs, rhs):
                  z3.If(op == S('<'), lhs < rhs, z3.If(op == S('>'), lhs > rhs, z3.BoolVal(False))))))
 
 
-FUNCS = dict(isorted=isorted, cnb=cnb, nbj=nbj, nbv=nbv, pvar=pvar, lnbrs=lnbrs, gadj=gadj, degsum=degsum, cvar=cvar, tlen=tlen, tcoef=tcoef, tlit=tlit, tunit=tunit, tnegc=tnegc, tset=tset, wsum=wsum, thaszero=thaszero,
+FUNCS = dict(sqr=sqr, isqf=isqf, isorted=isorted, cnb=cnb, nbj=nbj, nbv=nbv, pvar=pvar, lnbrs=lnbrs, gadj=gadj, degsum=degsum, cvar=cvar, tlen=tlen, tcoef=tcoef, tlit=tlit, tunit=tunit, tnegc=tnegc, tset=tset, wsum=wsum, thaszero=thaszero,
              tmaxabs=tmaxabs, tnonneg=tnonneg, tmpos=tmpos, tzpos=tzpos, mkcon=mkcon, olen=olen, osnoc=osnoc, otake=otake, holds=holds,
              osat=osat, oappc=oappc, omaxabs=omaxabs, ohaszero=ohaszero, onormal=onormal,
              ilen=ilen, iget=iget, inil=inil, isnoc=isnoc, iapp=iapp, ineg=ineg, haszero=haszero,
@@ -233,7 +235,8 @@ def b2i(b):
 
 
 # schemas used in VCs whose Lean proof is not (yet) in lemmas/: reported as ASSUMED LEMMAS in every evidence file
-ASSUMED_SCHEMAS = ['card2_store side condition: proved in Lean (CnfSem.card2_store) for FINITE pair sets only; that every edge set '
+ASSUMED_SCHEMAS = ['isqf(w) >= 0: int(math.sqrt(w)) is never negative (a fact about the float library, used by PythagoreanTriples only)',
+                   'card2_store side condition: proved in Lean (CnfSem.card2_store) for FINITE pair sets only; that every edge set '
                    'is finite (built from the empty set by finitely many add/remove) is not expressible in the VCs']
 
 # ---------------------------------------------------------------------------------
@@ -502,6 +505,11 @@ def _on_terms(terms_by_decl):
         # CnfSem.lean isnoc_min_max
         out += [z3.Implies(ilen(s_) == 0, z3.And(minof(isnoc(s_, x)) == x, maxof(isnoc(s_, x)) == x)),
                 z3.Implies(ilen(s_) >= 1, z3.And(minof(isnoc(s_, x)) == zmin(minof(s_), x), maxof(isnoc(s_, x)) == zmax(maxof(s_), x)))]
+    for (t_,) in terms_by_decl.get('sqr', []):
+        # linear facts about t*t over the integers (CnfSem.lean sqr_facts): non-negative, zero only at zero, at least |t|
+        out += [sqr(t_) >= 0, (sqr(t_) == 0) == (t_ == 0), sqr(t_) >= t_, sqr(t_) >= -t_]
+    for (w_,) in terms_by_decl.get('isqf', []):
+        out.append(isqf(w_) >= 0)           # ASSUMED library fact: math.sqrt returns a non-negative float, int() of it is >= 0
     for (g, u) in terms_by_decl.get('degsum', []):
         # CnfSem.lean degsum_zero / degsum_pred / degsum_succ / degsum_nonneg / ilen_rnbrs_nonneg (definition by recursion on u)
         out += [z3.Implies(u == 0, degsum(g, u) == 0),
